@@ -650,7 +650,7 @@ def system_cases(draw):
              dt=draw(st.sampled_from([0.02, 0.1, 0.5])), alpha=draw(st.integers(0, 6)) / 20.0,
              rho=draw(st.integers(2, 8)) / 4.0, eta=draw(st.sampled_from([0.0, 0.0, 0.5, 2.0])),
              tau=draw(st.sampled_from([0.0, 0.0, -1.0, 0.75])), fib=draw(st.integers(0, 99)),
-             nPoints=draw(st.integers(1, 5)), tol=draw(st.sampled_from([None, None, 1e-3, 1e-8])),
+             nPoints=draw(st.integers(1, 5)), tol=draw(st.sampled_from([None, 1e-3, 1e-8, 0.0, 0.0])) if stress == "quadrature" else None,
              seed=draw(st.integers(0, 999)), seed2=draw(st.integers(0, 999)), vseed=draw(st.integers(0, 999)),
              amp=draw(st.integers(1, 8)) / 20.0, step=draw(st.sampled_from([1.0, 0.3, 0.03])),
              d=draw(st.integers(0, 999)))
@@ -665,7 +665,7 @@ def _make_simu(case, mesh, g, dim, absTol=1e-9, rec=None):
     nPg = g.Get_gauss(MatrixType.rigi).nPg
     lawp = case["law"]
     if rec is not None:
-        lawp = _drop_known_crash(lawp, case["stress"] == "quadrature" and bool(case.get("tol")), case, rec)
+        lawp = _drop_known_crash(lawp, case["stress"] == "quadrature" and case.get("tol") is not None, case, rec)
     mat = hx.make_law(lawp, dim, g.Ne, nPg, thickness=case.get("thickness", 1.0))
     if case.get("eta"):
         mat.eta = case["eta"]
@@ -711,7 +711,7 @@ def check_system(case, rec):
     a_n = hx.smooth_u(mesh, dim, case["vseed"] + 1, 1.0, noise=0.05)
     simu._Set_solutions(pt, u_n.copy(), v_n, a_n)
     d = _direction(case["d"], N)
-    adaptive = case["stress"] == "quadrature" and case["tol"]
+    adaptive = case["stress"] == "quadrature" and case["tol"] is not None  # 0.0 is a tolerance (refine to the cap), not "unset"
 
     def rhs(x):
         simu._Simu__Solver_Set_Newton_Raphson_current_solution(x)
@@ -721,6 +721,18 @@ def check_system(case, rec):
         return b, n
 
     b0, n0 = rhs(u_np1.copy())
+    if adaptive and len(gm.main_groups(mesh)) == 1:
+        # the simulation hands nPoints / energyTol to the path-quadrature operator as they were given: the per-element
+        # point counts of its assembly are those of a direct call of the operator with the same options
+        coefK = float(simu._Solver_Get_K_C_M_coefs_for_time_scheme()[0])
+        u_t = np.asarray(simu._Solver_Evaluate_u_v_a_for_time_scheme(pt, u_np1.copy())[0], float)
+        sts = [HyperElasticState(g, x, mt) for x in (u_n, u_t, u_np1)]
+        n_op = np.asarray(Operators.NonLinear.TimeQuadratureStressTensor(mat, *sts, coefK, case["nPoints"], case["tol"])[2])
+        rec.label("quad_tol:" + ("zero" if case["tol"] == 0 else "positive"))
+        rec.require(n0 is not None and np.array_equal(np.asarray(n0).ravel(), n_op.ravel()), "quadrature_options_passed_on",
+                    f"{case['law']['name']} {mr['elemType']} nPoints={case['nPoints']} energyTol={case['tol']!r}: points per element in the "
+                    f"simulation's assembly {None if n0 is None else np.asarray(n0).ravel().tolist()} vs a direct call of "
+                    f"TimeQuadratureStressTensor with the same options {n_op.ravel().tolist()}", tol_zero=bool(case["tol"] == 0), **sig)
     A = simu._Solver_Apply_Dirichlet(pt, b0, ResolType.r1)[0]
     A = A.toarray() if hasattr(A, "toarray") else np.asarray(A)
     Ad = A @ d
